@@ -10,6 +10,10 @@ time: `frame_put`, `visitD_frame`), not through the exactness theorems, which sp
 
 `modF_noerr`: `Expr.modify` has no error exit of its own once `nv.(gen.Node)` cannot fail: an erroring
 Modify/Remove (last fragment a Descent, a fragment without `remove`) has not touched the data. -/
+set_option linter.unusedSimpArgs false
+set_option linter.unusedSectionVars false
+set_option linter.unusedVariables false
+
 namespace OjgVerif.JPMut
 open OjgVerif OjgVerif.JPath
 
